@@ -286,10 +286,10 @@ func runWriterOps(c *WCase, ops []Op, startEpoch int, failing bool, emit func(WE
 			if project {
 				ev.Ref = projectRef(c.Set.Kind, sink.Buf, data[:pos], dict, hdr)
 				if ev.Ev != "Write" {
-					ev.Std = projectLib("std", c.Set.Kind, sink.Buf, data[:pos], dict)
+					ev.Std = projectLib("std", c.Set.Kind, sink.Buf, data[:pos], dict, hdr)
 				}
 				if ev.Ev == "Close" {
-					ev.Fg = projectLib("fastgo", c.Set.Kind, sink.Buf, data[:pos], dict)
+					ev.Fg = projectLib("fastgo", c.Set.Kind, sink.Buf, data[:pos], dict, hdr)
 				}
 			}
 			emit(ev)
